@@ -126,7 +126,10 @@ def gen(seed, tier):
     # committed revision then has the bytes of the other writer's base
     # same: the new state is a function of the base state only, so that
     # two writers starting from one revision produce *equal* states
-    kinds = ('plain', 'plain', 'ref', 'ref_na', 'wref', 'touch', 'same')
+    # ref_same: a reference to an object of the holder's own class (its
+    # pickle refers back to the class in the record's first pickle)
+    kinds = ('plain', 'plain', 'ref', 'ref_na', 'wref', 'touch', 'same',
+             'ref_same', 'ref_same')
     for _ in range(r.randint(1, 4)):
         pat = r.choice(('pair', 'pair', 'chain', 'random'))
         if pat == 'random':
@@ -225,6 +228,8 @@ def run_conn(case):
         for i, cn in enumerate(case['classes']):
             o = objs.CLASSES[cn](tok())
             root['m%d' % i] = o
+        for cn in sorted(set(case['classes'])):
+            root['s_' + cn] = objs.CLASSES[cn](tok())   # same-class refs
         root['h'] = objs.Cell(tok())         # a helper: (oid, class) refs
         root['hn'] = objs.NewArgs(tok())     # a helper: bare-oid refs
         c0.commit()
@@ -264,6 +269,8 @@ def run_conn(case):
                 o.log = o.log + [t]
                 if step[3] == 'ref':
                     o.refs = o.refs + [cl.root()['h']]
+                elif step[3] == 'ref_same':
+                    o.refs = o.refs + [cl.root()['s_' + type(o).__name__]]
                 elif step[3] == 'ref_na':
                     o.refs = o.refs + [cl.root()['hn']]
                 elif step[3] == 'wref':
